@@ -1,4 +1,5 @@
 import GceTcb.Proofs.Commit
+import GceTcb.Proofs.ManifestFS
 /-
 C14 — Commit retries are bounded, fresh and honest.
 
@@ -10,6 +11,11 @@ are about the log of backend calls (`Ev`) and hold for every budget (any integer
 
 Reading (DESIGN §6): a negative budget behaves as zero retries, so the bound is
 1 ≤ attempts ≤ max(budget, 0) + 1.
+
+Names: the candidate name, --out_dir, --snapshot_dir and the image name in `Cfg` are ARBITRARY texts;
+every path argument is computed the way endorse/commit.go computes it (`relOut`, `relSnap`, `basename`
+through the model of Go's path.Clean / path.Join, Model/Paths.lean), so every theorem below is about
+arbitrary names. The `…_paths` theorems say what those paths are.
 -/
 namespace GceTcb.Commit
 open GceTcb.Manifest
@@ -240,7 +246,93 @@ theorem C14_result_once (c : Cfg) (e : Entry) (budget : Int) (script : List Atte
       have := hs.afterFailedOp (Or.inl (by rw [hk]; rfl)) ho
       rw [this] at hy; simp [evDestroy] at hy
 
+/-! ### arbitrary names: the paths of the workspace calls -/
+
+/-- Workspace paths are computed per attempt the same way: every read, write and mode change of every
+    attempt is made on one of the paths fixed by the request configuration (`planArgs c`: in manifest mode
+    the manifest at ReleasePath(Join(out_dir, "manifest.textproto")) and the endorsement at
+    ReleasePath(Join(out_dir, cleaned basename)); in snapshot mode the snapshot files) — whatever the
+    attempt's number, the failures before it and the contents of its workspace. -/
+theorem C14_workspace_paths (c : Cfg) (e : Entry) (budget : Int) (script : List Attempt)
+    (hd : c.dryRun = false) :
+    ∀ ev ∈ (retrySubmit c e budget script).1, ev.kind.isPlan = true → (ev.kind, ev.arg) ∈ planArgs c :=
+  retryLoop_plan_events c e budget hd script 0
+
+/-- … so two attempts make the same kind of call on the same path (manifest mode). -/
+theorem C14_same_paths_every_attempt (c : Cfg) (e : Entry) (budget : Int) (script : List Attempt)
+    (hd : c.dryRun = false) (hs : c.snapshot = false) :
+    ∀ x ∈ (retrySubmit c e budget script).1, ∀ y ∈ (retrySubmit c e budget script).1,
+      x.kind.isPlan = true → x.kind = y.kind → x.arg = y.arg := by
+  intro x hx y hy hk hxy
+  have h1 := C14_workspace_paths c e budget script hd x hx hk
+  have h2 := C14_workspace_paths c e budget script hd y hy (hxy ▸ hk)
+  simp only [planArgs, hs, Bool.false_eq_true, if_false, List.mem_cons, Prod.mk.injEq, List.not_mem_nil, or_false] at h1 h2
+  rcases h1 with ⟨k1, a1⟩ | ⟨k1, a1⟩ | ⟨k1, a1⟩ | ⟨k1, a1⟩ | ⟨k1, a1⟩ <;>
+    rcases h2 with ⟨k2, a2⟩ | ⟨k2, a2⟩ | ⟨k2, a2⟩ | ⟨k2, a2⟩ | ⟨k2, a2⟩ <;>
+    first
+    | (exact absurd (k1.symm.trans (hxy.trans k2)) (by decide))
+    | (rw [a1, a2])
+
+/-- A candidate name whose cleaned basename is rooted or climbs out of the output directory ("/rc0",
+    "../x", "../out/rc0") never reaches the workspace: for every budget and script the only ChangeOps call
+    of the change function is the manifest read, nothing is probed, written or re-moded, and the submission
+    never reports success. -/
+theorem C14_refused_name_paths (c : Cfg) (e : Entry) (budget : Int) (script : List Attempt)
+    (hd : c.dryRun = false) (hs : c.snapshot = false) (hn : nameOk c.cand = false) :
+    (retrySubmit c e budget script).2 ≠ .ok ∧
+    ∀ ev ∈ (retrySubmit c e budget script).1, ev.kind.isPlan = true → ev.kind = .readManifest :=
+  retryLoop_refused c e budget hd hs hn script 0
+
+/-- The endorsement path recorded with the commit is the canonical name: `Result` gets the cleaned
+    basename (a clean local path: path.Clean leaves it alone, it neither is rooted nor climbs), "" in
+    snapshot mode; and the endorsement's own path is never the manifest's. -/
+theorem C14_result_paths (c : Cfg) (e : Entry) (budget : Int) (script : List Attempt)
+    (hd : c.dryRun = false) :
+    (∀ ev ∈ (retrySubmit c e budget script).1, ev.kind = .result →
+      ev.arg = (if c.snapshot then "" else basename c.cand) ∧
+      (c.snapshot = false → Paths.LocalClean (basename c.cand) ∧ Paths.pclean (basename c.cand) = basename c.cand)) ∧
+    (nameOk c.cand = true → relOut c (basename c.cand) ≠ relOut c manifestFile) := by
+  constructor
+  · have gen : ∀ (script : List Attempt) (tries : Nat), ∀ ev ∈ (retryLoop c e budget tries script).1,
+        ev.kind = .result → ev.arg = (if c.snapshot then "" else basename c.cand) ∧
+          (c.snapshot = false → nameOk c.cand = true) := by
+      intro script
+      induction script with
+      | nil => intro tries ev hev; simp [retryLoop] at hev
+      | cons a rest ih =>
+        intro tries ev hev hk
+        rcases mem_retryLoop_cons c e budget tries a rest ev hev with h | ⟨b, h⟩ | ⟨_, h, _⟩
+        · exact attempt_result_arg c e tries a hd ev h hk
+        · subst h; simp [evRetriable] at hk
+        · exact ih (tries + 1) ev h hk
+    intro ev hev hk
+    obtain ⟨h1, h2⟩ := gen script 0 ev hev hk
+    refine ⟨h1, fun hs => ?_⟩
+    have hl := nameOk_local c.cand (h2 hs)
+    exact ⟨hl, hl.pclean_eq⟩
+  · intro hn
+    exact fullOut_ne_manifest ⟨.concat, c.root, c.outDir⟩ (nameOk_local c.cand hn) (basename_ne_manifestFile c.cand)
+
 /-! ### non-vacuity: concrete runs that exercise the clauses -/
+
+/-- uncanonical names everywhere (candidate "x/../sub//rc0", out dir "./out//"): a retriable commit failure,
+    then success — both attempts work on the same cleaned paths and Result gets the canonical name. -/
+example :
+    let r := retrySubmit exCfgNames exEntryNames 1 [⟨some 6, true, .notFound, false⟩, ⟨none, false, .notFound, false⟩]
+    r.2 = .ok ∧ attempts r.1 = 2 ∧
+    (⟨0, .writeFiles, true, "R/out/sub/rc0.binarypb", []⟩ : Ev) ∈ r.1 ∧
+    (⟨1, .writeFiles, true, "R/out/sub/rc0.binarypb", []⟩ : Ev) ∈ r.1 ∧
+    (⟨1, .writeManifest, true, "R/out/manifest.textproto", [exEntryNames]⟩ : Ev) ∈ r.1 ∧
+    evResult 1 true "sub/rc0.binarypb" ∈ r.1 := by
+  decide +kernel
+
+/-- a climbing name with --overwrite: one attempt that reads the manifest and stops; permanent error. -/
+example :
+    nameOk exCfgClimb.cand = false ∧
+    retrySubmit exCfgClimb exEntry 3 [⟨none, false, .notFound, true⟩, ⟨none, false, .notFound, false⟩] =
+      ([evGetOps 0 true, ⟨0, .readManifest, true, "R/out/manifest.textproto", []⟩, evDestroy 0, evRetriable 0 false], .err) := by
+  decide +kernel
+
 
 /-- budget 2: a retriable commit failure, then a retriable manifest-write failure while a concurrent
     writer has added `exOther2`, then success: three attempts, two destroys, one result, and the
